@@ -43,7 +43,7 @@ PROBES = ["q_mut_q", "q_after_append", "q_after_remove", "q_after_modify_element
           "nonrange_index", "block_query_hit", "alias_retired", "nan_cell", "dup_value_hit", "new_column_added",
           "empty_table", "from_query_holder", "slice_holder", "copy_holder", "viewer_built", "viewer_child_block", "viewer_append", "viewer_append_to_empty", "viewer_from_iterator",
           "viewer_query", "viewer_query_on_child", "big_table", "bool_column_query", "bool_column_query_for_false",
-          "indexed_query_on_10k_rows", "indexed_query_on_10k_rows_labels_not_positions", "cell_write_added_column", "huge_int_query", "loaded_from_file", "two_tables_from_one_file", "asked_for_empty_string"]
+          "indexed_query_on_10k_rows", "indexed_query_on_10k_rows_labels_not_positions", "cell_write_added_column", "huge_int_query", "loaded_from_file", "two_tables_from_one_file", "asked_for_empty_string", "row_labels_repeat"]
 # the same check again, smaller, in interpreters started with assertions stripped (python -O / PYTHONOPTIMIZE=1)
 ENV_VARIANTS = [{"name": "python-O", "env": {"PYTHONOPTIMIZE": "1"}, "runs": {'quick': 2500, 'thorough': 25000}}]
 TIERS = {
@@ -127,7 +127,7 @@ def model_new(rows, columns):
 
 MUTATIONS = ["modify_element", "modify_row", "modify_column", "append", "remove_rows", "rename_column",
              "reset_index", "fillna", "set_columns"]
-CONSTRUCTIONS = ["new", "copy_of", "from_df", "clone", "slice", "from_query", "from_qval", "save_load"]
+CONSTRUCTIONS = ["new", "copy_of", "from_df", "clone", "slice", "from_query", "from_qval", "save_load", "dup_labels"]
 QUERIES = ["len", "iterate", "access", "access_list", "access_label_col", "access_column", "get_rows",
            "slow_query_first", "qidx", "qval", "qfirst", "bundle_search", "unique", "block_indices", "read_block",
            "read_block_with", "boundary", "dict_list", "slow_query"]
@@ -305,6 +305,8 @@ def _gen_construction(rng, k):
         op["is_copy"] = rng.random() < 0.5
     elif kind == "slice":
         op.update(a=rng.randrange(10), b=rng.randrange(10))
+    elif kind == "dup_labels":
+        op.update(k=rng.randint(1, 4))      # a table built from a frame that was concatenated without renumbering: row labels repeat
     elif kind == "save_load":
         op.update(twice=rng.random() < 0.6)      # the table is saved to a file and read back, once or twice (two tables from one file)
     elif kind in ("from_query", "from_qval"):
@@ -659,6 +661,22 @@ def execute(trace):
                 log.append([kind, len(model.rows)])
             elif not holders:
                 continue
+            elif kind == "dup_labels":
+                src = pick_holder(op["h"])
+                m = src["model"]
+                if not m.rows or not m.cols or src.get("dup"):
+                    continue
+                kk = max(1, min(op.get("k", 1), len(m.rows)))
+                df0 = src["dm"].get_data()
+                df2 = df0.iloc[:kk].copy()
+                df2.index = df0.index[len(df0) - kk:]        # copies of the FIRST rows under the labels of the LAST rows
+                dfc = _pd.concat([df0, df2])
+                dm = sut(lambda: _DM(dfc, is_copy=True))
+                tail_labels = [l_ for l_, _ in m.rows[len(m.rows) - kk:]]
+                hnew = add_holder(dm, T(m.cols, m.rows + [[tail_labels[j_], dict(m.rows[j_][1])] for j_ in range(kk)]), kind)
+                hnew["dup"] = True
+                hit("row_labels_repeat")
+                log.append([kind, len(holders)])
             elif kind == "save_load":
                 src = pick_holder(op["h"])
                 m = src["model"]
@@ -667,7 +685,7 @@ def execute(trace):
                     vals_ = [r_.get(c_) for _, r_ in m.rows if r_.get(c_) is not None]
                     kinds_ = {("bool" if isinstance(v_, bool) else "int" if isinstance(v_, int) else "str") for v_ in vals_}
                     return len(kinds_) <= 1 and all(not isinstance(v_, int) or isinstance(v_, bool) or -2 ** 63 <= v_ < 2 ** 63 for v_ in vals_)
-                if not m.cols or not m.rows or not all(one_kind(c_) for c_ in m.cols):
+                if not m.cols or not m.rows or not all(one_kind(c_) for c_ in m.cols) or src.get("dup"):
                     continue          # the file format stores one kind of value per column (and 64-bit integers): other tables are left out
                 if save_dir[0] is None:
                     import tempfile
@@ -686,6 +704,8 @@ def execute(trace):
                 log.append([kind, len(holders)])
             elif kind in ("copy_of", "from_df", "clone", "slice", "from_query", "from_qval"):
                 src = pick_holder(op["h"])
+                if src.get("dup"):
+                    continue          # tables whose row labels repeat: only removals, renumbering and position / value based queries
                 m = src["model"]
                 if kind == "copy_of":
                     dm = sut(lambda: _DM(src["dm"]))
@@ -738,6 +758,8 @@ def execute(trace):
             # ------------------------------------------------------------ mutations
             elif kind in MUTATIONS:
                 h = pick_holder(op["h"])
+                if h.get("dup") and kind not in ("remove_rows", "reset_index"):
+                    continue
                 m = h["model"]
                 n = len(m.rows)
                 applied = False
@@ -861,6 +883,7 @@ def execute(trace):
                     retire_aliases(h)
                     sut(lambda: h["dm"].reset_index())
                     m.rows = [[i, r] for i, (_, r) in enumerate(m.rows)]
+                    h["dup"] = False
                     applied = True
                 elif kind == "fillna":
                     vals = {c: v for c, v in op["values"].items() if c in m.cols and writable(h, c, v)}
@@ -954,6 +977,8 @@ def execute(trace):
                                                                                              "range": [s_, e_], "rows": rows}}
             elif kind == "q":
                 h = pick_holder(op["h"])
+                if h.get("dup") and op["kind"] in ("access_label_col", "block_indices", "read_block", "read_block_with", "boundary", "access_list"):
+                    continue
                 exp, obs, skipped = run_query(h, op, sut, hit, states, trans)
                 if skipped:
                     continue
